@@ -277,6 +277,12 @@ static void run_line(const std::string &line) {
             auto rnd = [&]() -> double { seed = mix(seed + 0x9e3779b97f4a7c15ULL); return (double) (seed >> 11) / 9007199254740992.0; };
             for (int i = 0; i < nr; i++) for (int j = 0; j < d; j++) s.probe.push_back(lo[j] + (hi[j] - lo[j]) * rnd());
             for (int i = 0; i < 4 && n > 0; i++) { size_t p = (size_t) (rnd() * n) % n; for (int j = 0; j < d; j++) s.probe.push_back(pts[p * d + j]); }
+            // points half-way between adjacent node coordinates (for periodic bases: half a period from a node of the finest level)
+            for (int i = 0; i < 4; i++) { std::vector<double> x(d); bool okp = true;
+                for (int j = 0; j < d; j++) { std::set<double> cs; for (size_t p = 0; p < n; p++) cs.insert(pts[p * d + j]);
+                    std::vector<double> c(cs.begin(), cs.end()); if (g.isFourier()) c.push_back(hi[j]);
+                    if (c.size() < 2) { x[j] = c[0]; continue; } size_t q = (size_t) (rnd() * (c.size() - 1)) % (c.size() - 1); x[j] = 0.5 * (c[q] + c[q + 1]); }
+                if (okp) s.probe.insert(s.probe.end(), x.begin(), x.end()); }
             if (sup.size() == pts.size()) for (int i = 0; i < 6; i++) { size_t p = (size_t) (rnd() * n) % n; int dir = (int) (rnd() * d) % d; double sg = (rnd() < 0.5) ? -1.0 : 1.0;
                 std::vector<double> x(pts.begin() + p * d, pts.begin() + (p + 1) * d); x[dir] += sg * sup[p * d + dir];
                 if (x[dir] < lo[dir] || x[dir] > hi[dir]) x[dir] = pts[p * d + dir] - sg * sup[p * d + dir];
